@@ -243,7 +243,7 @@ def whitespace_tabulation(ctx, report, spec):
     every run of up to four characters over the optional whitespace alphabet: the item handed on must end before the
     whole run, whatever the order of spaces and tabs in it"""
     import itertools
-    from ..miniexec import Evaluator, Unsupported, Raised
+    from ..miniexec import Evaluator, Obj, Unsupported, Raised, class_call_hook
     pt = ctx.model.cls('ParserText')
     f = pt.methods.get('_parse_string_until_separator')
     if f is None:
@@ -271,6 +271,7 @@ def whitespace_tabulation(ctx, report, spec):
         return NotImplemented
     item = b'max-age=1'
     params = [a.arg for a in f.node.args.args if a.arg != 'self']
+    chook = class_call_hook(pt, hook, ctx.model)
     bad = []
     try:
         for k in range(0, 8 if ctx.thorough else 5):
@@ -288,7 +289,10 @@ def whitespace_tabulation(ctx, report, spec):
                         if name == 'self._encoding':
                             return 'ascii'
                         raise Unsupported('free name %s' % name)
-                    ev = Evaluator(env, hook, names)
+                    me = Obj(_parsable=data, _encoding='ascii')
+                    me._repo_class = pt         # helper methods of the parser class are evaluated from their own statements
+                    env['self'] = me
+                    ev = Evaluator(env, chook, names)
                     try:
                         ev.function(f.node)
                     except Raised as e:
